@@ -84,6 +84,9 @@ func splitHead(r *Rng, n *Node) *Node {
 var leadingComments = []string{"<!-- a comment -->\n", "\n\n  \n", "<!-- c1 --><!-- c2 -->\n\n", "\r\n<!-- multi\nline\ncomment -->\r\n", "  <!-- x --> \t\n",
 	// punctuation a scanner could mistake for markup: unpaired quotes, angle brackets, ampersands
 	"<!--> note -->\n", "<!---> note -->", "<!--<mjml>-->", "<!---->", "<!-- - -->\n",
+	// banners over several lines with dashes inside (not well-formed as XML comments; in front of the root they are removed
+	// as text, like any other comment)
+	"<!--\n ---- banner ----\n-->\n", "<!-- Newsletter -- October\n     (c) ACME -->\r\n", "<!--\n-- a\n-- b\n--->\n",
 	"<!-- generated file, don't edit -->\n", "<!-- 15\" banner -->\n", "<!-- a & b < c > d -->\n", "<!-- it's \"x\" & <mj-text> -->\n"}
 
 // what may stand in front of the root element without being part of the document: a byte-order mark, an XML declaration, a
